@@ -24,7 +24,6 @@ type VerifStateSnapshot struct {
 	TemplateExt   string
 	ErrorPagePath string
 	DebugMode     bool
-	UsesTemplates bool
 	StrFuncs      []string
 	ArrFuncs      []string
 	IntFuncs      []string
@@ -36,14 +35,11 @@ type VerifStateSnapshot struct {
 func VerifReset() {
 	userConfig = config.New("templates", ".tw.html", "", false)
 	customFunc = config.NewFunc()
-	usesTemplates = false
 }
 
-// VerifResetConfig restores the configuration and the mode flag
-// but keeps registered custom functions
+// VerifResetConfig restores the configuration but keeps registered custom functions
 func VerifResetConfig() {
 	userConfig = config.New("templates", ".tw.html", "", false)
-	usesTemplates = false
 }
 
 // VerifState returns a copy of package-level state
@@ -53,7 +49,6 @@ func VerifState() VerifStateSnapshot {
 		TemplateExt:   userConfig.TemplateExt,
 		ErrorPagePath: userConfig.ErrorPagePath,
 		DebugMode:     userConfig.DebugMode,
-		UsesTemplates: usesTemplates,
 	}
 
 	for k := range customFunc.Str {
